@@ -20,17 +20,17 @@ import (
 // x request path x raw query, each compared with a reference function.
 
 type c08Case struct {
-	uid      string // absent | unknown | known | failing | empty
-	half     bool
-	twofa    bool
-	preload  string // none | pid | user
-	reqs     authboss.MWRequirements
-	fail     authboss.MWRespondOnFailure
-	mounted  bool
-	mount    string
-	api      bool
-	path     string // escaped request path
-	query    string
+	uid        string // absent | unknown | known | failing | empty
+	half       bool
+	twofa      bool
+	preload    string // none | pid | user
+	reqs       authboss.MWRequirements
+	fail       authboss.MWRespondOnFailure
+	mounted    bool
+	mount      string
+	api        bool
+	path       string // escaped request path
+	query      string
 	deprecated bool
 }
 
@@ -318,9 +318,9 @@ func c08Check(c c08Case, o *world.Obs, ran int, seenUser string) (class, bad str
 func init() {
 	engine.Register(&engine.Property{
 		ID: "C08", Level: "exploration",
-		Rule: "complete Cartesian product of session uid kind (absent/unknown/known/known+failing storage/empty) x half-auth x 2FA mark x context pre-load (none/pid/user) x requirement bits x refusal mode x mountPathed x Paths.Mount x API/form x 9 request paths x 10 raw queries, Middleware2 and the deprecated boolean entry points; each outcome compared with a reference function; non-trivial classes = distinct reference outcomes (run, 404, 401, redirect, API redirect, 500)",
-		Units: c08Units,
-		Need:  []string{"run", "refuse-404", "refuse-401", "refuse-redirect", "refuse-redirect-api", "storage-error-500"},
+		Rule:        "complete Cartesian product of session uid kind (absent/unknown/known/known+failing storage/empty) x half-auth x 2FA mark x context pre-load (none/pid/user) x requirement bits x refusal mode x mountPathed x Paths.Mount x API/form x 9 request paths x 10 raw queries, Middleware2 and the deprecated boolean entry points; each outcome compared with a reference function; non-trivial classes = distinct reference outcomes (run, 404, 401, redirect, API redirect, 500)",
+		Units:       c08Units,
+		Need:        []string{"run", "refuse-404", "refuse-401", "refuse-redirect", "refuse-redirect-api", "storage-error-500"},
 		Assumptions: []string{"for mountPathed=true only clean paths are used (the option exists for authboss's own routes; path.Join normalises the path)"},
 	})
 }
